@@ -272,6 +272,83 @@ pub fn execute_with(
     }
 }
 
+/// Walks a ROOTED glob made of the world's own absolute path followed by `pattern` (no layers):
+/// what the walker feeds downstream and yields. The given directory is ignored by a rooted glob.
+pub fn execute_rooted(place: &Place, pattern: &str, link: wax::walk::LinkBehavior) -> Result<(Run, String), String> {
+    let abs = place.abs.to_str().ok_or_else(|| "scratch path is not UTF-8".to_string())?;
+    let text = format!("{}/{}", wax::escape(abs), pattern);
+    let log = RefCell::new(Run::default());
+    let history = History::new();
+    let ctx = Ctx { layers: &[], history: &history, log: &log, tree_root: &place.abs };
+    let r = guard(|| {
+        let glob = Glob::new(&text).map_err(|e| format!("{}", e))?;
+        // never walk outside the scratch area (a rooted glob with a variant first component
+        // would traverse the machine's real root)
+        let (root, _) = glob.verif_walk_anchor("/waxmc-nonexistent-base");
+        if !root.starts_with(&place.abs) {
+            return Err(format!("SKIP traversal root {:?} outside the scratch area", root));
+        }
+        level3(glob.walk_with_behavior("/waxmc-nonexistent-base", link), &ctx, 0)
+    });
+    match r {
+        Ok(Ok(())) => Ok((log.into_inner(), text)),
+        Ok(Err(e)) => Err(e),
+        Err(p) => Err(format!("panic: {}", p)),
+    }
+}
+
+/// What a glob walk must feed downstream, from the reference traversal and the glob's own
+/// per-component programs (hook H2): every entry that is not beneath a directory whose component
+/// fails its program (such a directory is itself still produced, as residue). `rooted`: the glob
+/// starts with the world's absolute path. None if the invariant prefix does not name a real,
+/// reachable directory of the world.
+pub fn glob_feed_expectation(world: &World, abs: &Path, glob: &Glob<'_>, rooted: bool, follow: bool) -> Option<Vec<String>> {
+    use std::path::Component;
+    let pruner = crate::props_links::Pruner::of(glob)?;
+    let prefix = glob.clone().partition().0;
+    let rel_prefix: PathBuf = if rooted { prefix.strip_prefix(abs).ok()?.to_path_buf() } else { prefix };
+    let mut prefix_comps: Vec<String> = vec![];
+    for c in rel_prefix.components() {
+        match c {
+            Component::Normal(n) => prefix_comps.push(n.to_string_lossy().to_string()),
+            _ => return None,
+        }
+    }
+    let comps: Vec<&str> = prefix_comps.iter().map(|s| s.as_str()).collect();
+    let start = fsworld::find(world, &comps)?;
+    for k in 0..=start.len() {
+        if !matches!(fsworld::node_at(world, &start[..k]).map(|n| &n.kind), Some(fsworld::FKind::Dir { readable: true, .. })) {
+            return None;
+        }
+    }
+    let lead: Vec<String> = if rooted {
+        abs.components().filter_map(|c| if let Component::Normal(n) = c { Some(n.to_string_lossy().to_string()) } else { None }).collect()
+    }
+    else {
+        vec![]
+    };
+    let mut out = vec![];
+    let mut cut: Vec<Vec<String>> = vec![];
+    for it in fsworld::traverse(world, &start, follow) {
+        let mut full = prefix_comps.clone();
+        full.extend(it.rel().iter().cloned());
+        if cut.iter().any(|c| full.len() > c.len() && full[..c.len()] == c[..]) {
+            continue;
+        }
+        if let fsworld::RItem::Entry { kind, .. } = &it {
+            out.push(full.join("/"));
+            if *kind == fsworld::EKind::Dir {
+                let mut all = lead.clone();
+                all.extend(full.iter().cloned());
+                if pruner.mismatch(&all) {
+                    cut.push(full);
+                }
+            }
+        }
+    }
+    Some(out)
+}
+
 // ---------------------------------------------------------------------------------------------
 // Model
 // ---------------------------------------------------------------------------------------------
@@ -733,6 +810,20 @@ impl Drop for PlanTimer<'_> {
     }
 }
 
+pub fn replay_rootedfeed(case: &Value) -> bool {
+    let world = world_from_json(&case["world"]);
+    let pat = case["pattern"].as_str().unwrap_or("*");
+    let scratch = Scratch::new();
+    let place = fswalk::place(&scratch, &world);
+    let Ok((run, text)) = execute_rooted(&place, pat, wax::walk::LinkBehavior::ReadFile) else {
+        println!("walk fails");
+        return true;
+    };
+    let exp = Glob::new(&text).ok().and_then(|glob| glob_feed_expectation(&world, &place.abs, &glob, true, false));
+    println!("Glob(\"<T>/{}\").walk in {}: feeds {:?}; pruned traversal {:?}", pat, world.describe(), run.fed, exp);
+    exp.map_or(false, |e| e != run.fed)
+}
+
 pub fn c13_c16(tier: Tier, which: &'static str) -> i32 {
     let rep = Report::new(which, tier, "exploration");
     let scratch = Scratch::new();
@@ -765,6 +856,31 @@ pub fn c13_c16(tier: Tier, which: &'static str) -> i32 {
             for base in &plan.bases {
                 let link = if plan.follow { wax::walk::LinkBehavior::ReadTarget } else { wax::walk::LinkBehavior::ReadFile };
                 let Ok(base_run) = execute_with(&place, base, &[], &History::new(), link) else { continue };
+                // C13, first clause: a directory whose component a glob cannot match is discarded
+                // as a tree by the walker itself - what the walk feeds downstream is the
+                // reference traversal pruned by the glob's own component programs
+                if which == "C13" {
+                    if let BaseWalk::Glob(g) = base {
+                        if let Some(exp) = Glob::new(g).ok().and_then(|glob| glob_feed_expectation(world, &place.abs, &glob, false, plan.follow)) {
+                            bump(&mut c, "base_feeds_checked", 1);
+                            if base_run.fed != exp {
+                                rep.alarm(Alarm {
+                                    class: None,
+                                    key: format!("basefeed {} {:?} {}", world.describe(), base, plan.follow),
+                                    msg: format!(
+                                        "{} in {}{}: the walk feeds {:?} downstream, but the traversal pruned by the glob's component programs is {:?}",
+                                        base.describe(),
+                                        world.describe(),
+                                        if plan.follow { " (reading link targets)" } else { "" },
+                                        base_run.fed,
+                                        exp
+                                    ),
+                                    case: with_follow(case_json(world, base, &[], &History::new()), plan.follow),
+                                });
+                            }
+                        }
+                    }
+                }
                 for set in &plan.stacks {
                     let perms = permutations(set);
                     let canonical = &perms[0];
@@ -858,6 +974,39 @@ pub fn c13_c16(tier: Tier, which: &'static str) -> i32 {
             {
                 let mut o = outcomes.lock().unwrap();
                 o.extend(local_outcomes);
+            }
+            drop(place);
+            rep.merge(&c);
+        });
+    }
+    // rooted glob walks (the world's absolute path followed by a pattern): the same feed law; the
+    // pivot of a rooted glob differs from the number of prefix components
+    if which == "C13" {
+        let worlds = &plans[0].worlds;
+        let patterns = ["*/a", "a/*", "{a,b}/**", "[!a]*/*", "**/a", "*", "a/**"];
+        worlds.par_iter().for_each(|world| {
+            let mut c = Counters::new();
+            let place = fswalk::place(&scratch, world);
+            for pat in patterns {
+                let link = wax::walk::LinkBehavior::ReadFile;
+                let Ok((run, text)) = execute_rooted(&place, pat, link) else { continue };
+                bump(&mut c, "walks", 1);
+                let Some(exp) = Glob::new(&text).ok().and_then(|glob| glob_feed_expectation(world, &place.abs, &glob, true, false)) else { continue };
+                bump(&mut c, "rooted_base_feeds_checked", 1);
+                if run.fed != exp {
+                    rep.alarm(Alarm {
+                        class: None,
+                        key: format!("rootedfeed {} {}", world.describe(), pat),
+                        msg: format!(
+                            "Glob(\"<T>/{}\").walk in {}: the walk feeds {:?} downstream, but the traversal pruned by the glob's component programs is {:?}",
+                            pat,
+                            world.describe(),
+                            run.fed,
+                            exp
+                        ),
+                        case: json!({"kind": "rootedfeed", "world": world_json(world), "pattern": pat}),
+                    });
+                }
             }
             drop(place);
             rep.merge(&c);
